@@ -13,7 +13,8 @@ CONF = dict(
                 'hence every accepted string of ANY hrp and ANY admitted length with 1 or 2 substituted data-part symbols is rejected; wrong constant rejected; mixed case rejected; upper/lower decode alike; accepted strings have the canonical shape. '
                 'K: Decode/DecodeGeneric/Encode/ConvertBits against the model on valid, mutated, mixed-case, boundary and malformed strings (outcome classes ok/err/panic; the 14-character string that used to panic is an error since fix 4672273 and the model follows). '
                 'S: all 1-position substitutions of every accepted string, exhaustive 2-position substitution of sampled addresses (sliced over 16 case lines each), sampled pairs elsewhere, one-letter case flips, other-constant checksums; '
-                'for the standard shapes (lq/tlq/el, 86/105 symbols) S also substitutes inside the human-readable part and the separator (numerically pre-checked, not part of the theorem); 3-/4-position patterns are exploration only.',
+                'for the standard shapes (lq/tlq/el, 86/105 symbols) S also substitutes inside the human-readable part and the separator (now theorems too: C15_detects_hrp_one / _two / _and_data, C15_no_separator_rejected); 3-/4-position patterns are exploration only. '
+                'HRP theorems: a changed prefix xors one word G(hrp,hrp\') into the polymod before the data part; polymod_step(.,0) is injective on 60-bit words (C15_shift_injective, from a 32-case check of the generator low bits), so G<>0 (62+93+62 single and 961+2883+961 double substitutions enumerated) suffices for HRP-only errors at every length; HRP+data reduces to two kernel-enumerated tables (217 x 1000 entries each).',
 )
 
 TEXT = dict(
@@ -21,7 +22,7 @@ TEXT = dict(
          'the checksum is GF(2)-linear, so error detection reduces to a finite syndrome table which the Coq kernel enumerates (vm_compute) for all 1000 positions the decoder admits; '
          'consequently, for every accepted string of any human-readable part and any length, replacing one or two data-part characters (version symbol, payload, checksum) by other alphabet characters is rejected, '
          'a checksum made with the constant of the other witness version is rejected, mixed case is rejected, and upper/lower spellings decode alike. '
-         'Substitutions inside the human-readable part are covered by the implementation-side search only.',
+         'The same holds for substitutions inside the human-readable part of the three network prefixes (lq, tlq, el, taken from the regenerated network constants): one or two substituted prefix characters, or one prefix character together with one data-part character, are rejected by Decode\'s checksum at every admitted length, and a string whose separator was replaced is rejected outright. DecodeGeneric does not look at the checksum (it returns whatever prefix is spelled); a foreign prefix that happened to pass would still be refused at the address layer (DecodeType/NetworkForAddress match the three known prefixes only).',
     note=COMMON_NOTE + 'Modelled by hand: blech32/blech32.go. No idealised primitives. 3- and 4-position error patterns are explored by S but not claimed.',
     technique='Coq proof (linearity + kernel-enumerated syndrome table over regenerated constants) + model/implementation differential check + exhaustive substitution search on the implementation',
 )
